@@ -21,6 +21,7 @@ _LOADER = [None]
 def sym_pkg():
     if _LOADER[0] is None:
         _LOADER[0] = loader.Loader(shims=stubs.shims())
+        loader.CURRENT[0] = _LOADER[0]
     return _LOADER[0].pkg
 
 
